@@ -31,6 +31,8 @@ func runC14(r *engine.Run) {
 	r.Rule("FRESH-bytes", "see C03: the byte slices handed out by the node accessors (MarshalMsg, Encode, GetHashBytes, GetValueBytes in core/util) are new buffers on every return: nil, make/conversion results, results of calls that produce new buffers, or appends to such; never a field, element, global or map entry. FRESH-node relies on this, and callers of GetNodeValueRaw own (and may overwrite) the slice they get")
 	r.Rule("FRESH-node", "see C03: no trie operation edits in place a node object that the store or the node cache handed out: the memory store would then hold that object under the hash it had before the edit (an entry that is not addressed by its own hash)")
 	r.Rule("AGREE-fieldset", "for LeafNode, FullNode and ExtensionNode: every field the private encode reads has a buffer write that depends on it (it is persisted and hashed); Decode assigns exactly those fields; CloneNode (the copy the memory store keeps) sets each of them and the origin tracker. Accessor methods (GetValue/SetValue, GetChild/PutChild, ...) count as uses of the field they stand for")
+	r.Rule("AGREE-hash", "see C02: the node hash is RawHash(little-endian origin || the node's persisted fields) computed from the node's current content on every call (a memoised hash survives a change of origin)")
+	r.Rule("DOM-size", "see C01: Insert stores a private snapshot of the marshalled value")
 	r.NotDec = append(r.NotDec, "byte-exact round trip for every value (value-level)")
 	orderStamp(r, "KEY-own-hash")
 	keyOwnHash(r)
@@ -44,6 +46,8 @@ func runC14(r *engine.Run) {
 	agreeCloneFields(r, "AGREE-clonefields")
 	agreeSetters(r, "AGREE-setters")
 	orderKeySave(r)
+	agreeHash(r, "AGREE-hash")
+	domSize(r)
 }
 
 func keyOwnHash(r *engine.Run) {
